@@ -27,7 +27,10 @@ Definition k_strict : str := S"strict".
 Definition k_a2z : str := S"a2z".
 Definition k_z2a : str := S"z2a".
 
+Definition payload_unset (pl : payload) : bool := match pl with PLRaw JNull => true | _ => false end.
+
 Definition pi_to_json (p : pinfo) : res str :=
+  if payload_unset (pi_payload p) then Ok [] else      (* nothing set: '' (9b14727) *)
   let pj : res json :=
       match pi_type p with
       | Some PTGraph => match pi_payload p with
@@ -191,12 +194,12 @@ Section WithIso.
                 else Ok None
     end.
 
-  (* MaintenanceEntry( **v ) for a decoded JSON value v *)
+  (* MaintenanceEntry( known part of v ) for a decoded JSON value v *)
   Definition mentry_of_jv (v : json) : res mentry :=
     match v with
     | JObj d =>
-      if negb (forallb (fun kv => existsb (str_eqb (fst kv)) [k_state; k_deadline; k_end]) d) then Err e_type
-      else match aget k_state d with
+      (* only the dataclass fields are passed on (9153c3e); the constructor reads these three *)
+      match aget k_state d with
            | None => Err e_type                               (* missing required argument *)
            | Some sv =>
              let st := match sv with JStr s => mstate_of_str s | _ => None end in
@@ -207,8 +210,8 @@ Section WithIso.
                         | Ok en => Ok {| me_state := st; me_deadline := dl; me_end := en |}
                         end
              end
-           end
-    | _ => Err e_type
+      end
+    | _ => Err e_attr                                            (* no .items *)
     end.
 
   Fixpoint mentries_of (d : list (str * json)) : res (list (str * mentry)) :=
